@@ -1113,6 +1113,15 @@ class World:
                              fm.alts[0].shape(), "document", "-")
             return status
         oc = self.run({"faults": []}, lambda: doc.paths())
+        if oc[0] != "ok" and any(t.arc_under_transform() for t in fm.alts):
+            # the file loaded; it is paths() that raised, on an Arc inside a transformed group (C10's subject)
+            self.probe("arc_under_group_transform_not_judged")
+            if fm.status != "complete":
+                return "skipped"
+            t = fm.alts[0].clone()
+            t.writer = "document"
+            self.docs[op["doc"]] = DocModel(doc, t, "loaded:" + fm.alts[0].writer)
+            return "ok"
         if oc[0] != "ok":
             self.violate(idx, "read_failed", {"file": name, "status": oc[0]}, fm.alts[-1].writer,
                          fm.alts[-1].shape(), "document", fault)
@@ -1232,6 +1241,24 @@ class World:
         node.attrs[op["key"]] = op["value"]
         dm.dirty = True
         self.probe("attribute_set_through_returned_element")
+        self.check_doc(idx, op, dm)
+        return "ok"
+
+    def op_doc_group_set(self, idx, op, entry):
+        """add_group / get_or_add_group return the group's Element; the caller gives it another transform
+        (after the document has been queried: whatever a query remembered must not outlive the edit)"""
+        if op["doc"] not in self.docs:
+            return "skipped"
+        dm = self.docs[op["doc"]]
+        names = list(op["names"])
+        el = dm.elems.get(tuple(names))
+        gnode = dm.tree.find_group(names)
+        if el is None or gnode is None or gnode is dm.tree or not hasattr(el, "set"):
+            return "skipped"
+        el.set("transform", op["transform"])
+        gnode.attrs["transform"] = op["transform"]
+        dm.dirty = True
+        self.probe("group_transform_changed_through_returned_element")
         self.check_doc(idx, op, dm)
         return "ok"
 
@@ -1742,6 +1769,7 @@ class Gen:
         self.reuse_names = c.random() < 0.35
         self.pathlike = c.random() < 0.3
         self.group_transforms = c.random() < 0.3     # add_group(group_attribs={'transform': ...})
+        self.w_ops["doc_group_set"] = c.choice([1, 2]) if self.group_transforms else 0
 
     def config(self):
         return {"faulting": self.faulting, "bufsize": self.bufsize, "chunk": self.chunk, "readers": self.readers,
@@ -2136,6 +2164,11 @@ class Gen:
             key = a.choice(["stroke", "fill", "data-late", "class"])
             return {"op": k, "doc": d, "i": a.randrange(8), "key": key,
                     "value": a.choice(VAL_NASTY if self.attr_mode == "nasty" else VAL_SIMPLE)}
+        if k == "doc_group_set":
+            if not dm.elems:
+                return None
+            return {"op": k, "doc": d, "names": list(a.choice(sorted(dm.elems))),
+                    "transform": a.choice(sorted(GROUP_TRANSFORMS))}
         if k == "doc_text":
             return {"op": k, "doc": d, "pretty": a.random() < 0.4, "reader": a.choice(["svgstr2paths", "document_string"])}
         if k == "doc_mutate_result":
